@@ -26,8 +26,12 @@ type Reader struct {
 	EOFWithData bool  // deliver the final bytes together with io.EOF
 	FailAt      int   // if >0: the FailAt-th read (1-based) returns FailErr instead of data
 	FailErr     error
-	Yield       func() // scheduler hook, called at every read
-	Clock       *uint64
+	// FailWithData: the FailAt-th read returns its data TOGETHER with FailErr
+	// (legal for an io.Reader: "it may return the (non-nil) error from the same
+	// call"); later reads return (0, FailErr).
+	FailWithData bool
+	Yield        func() // scheduler hook, called at every read
+	Clock        *uint64
 
 	Pos           int
 	Reads         int
@@ -46,7 +50,7 @@ func (r *Reader) Read(p []byte) (int, error) {
 	if r.Yield != nil {
 		r.Yield()
 	}
-	if r.FailAt > 0 && r.Reads >= r.FailAt {
+	if r.FailAt > 0 && r.Reads >= r.FailAt && !(r.FailWithData && r.Reads == r.FailAt && len(p) > 0 && r.Pos < len(r.Data)) {
 		e := r.FailErr
 		if e == nil {
 			e = ErrInjected
@@ -84,6 +88,13 @@ func (r *Reader) Read(p []byte) (int, error) {
 	}
 	copy(p, r.Data[r.Pos:r.Pos+n])
 	r.Pos += n
+	if r.FailWithData && r.FailAt > 0 && r.Reads == r.FailAt {
+		e := r.FailErr
+		if e == nil {
+			e = ErrInjected
+		}
+		return n, e
+	}
 	if r.Pos == len(r.Data) && r.EOFWithData {
 		r.eofSent = true
 		return n, io.EOF
